@@ -124,8 +124,9 @@ def dcm_route(route, q):
         return np.asarray(rewritten(q).to_DCM(), dtype=float)
     if route == "DCM(q=)[int-list]":
         # integer-valued (non-normalised) quaternions are handed over as integers; others as they are
-        k = np.array(q, dtype=float) / np.min(np.abs(np.array(q, dtype=float))[np.abs(np.array(q, dtype=float)) > 1e-9])
-        if np.array_equal(k, np.rint(k)) and np.array_equal(k * np.min(a), p) and np.max(np.abs(k)) <= 64:
+        a = np.abs(q[np.abs(q) > 1e-9])
+        k = q / np.min(a)
+        if np.array_equal(k, np.rint(k)) and np.array_equal(k * np.min(a), q) and np.max(np.abs(k)) <= 64:
             return np.asarray(DCM(q=[int(c) for c in np.rint(k)]), dtype=float)
         return np.asarray(DCM(q=list(q)), dtype=float)
     raise KeyError(route)
